@@ -263,6 +263,37 @@ func editPrint(e *expr.Expression, canon func(func() string) string) string {
 	if after != fresh {
 		return "editprint:STALE after=" + strconv.Quote(after) + " fresh-clone=" + strconv.Quote(fresh)
 	}
+	// the same for a driver the caller built and owns: render, legally replace one of its
+	// render functions, render again; must equal a render through a brand-new driver value
+	// holding a copy of the edited map
+	own := driver.Base{RenderFNs: map[expr.Operator]driver.RenderFN{}}
+	for op, fn := range driver.Shared {
+		own.RenderFNs[op] = fn
+	}
+	rend := func(b driver.Base, x *expr.Expression) string {
+		return guarded(func() string {
+			s, err := b.Render(x)
+			ps, pp, perr := b.RenderParam(x)
+			return s + "|" + errText(err) + "|" + ps + "|" + canonParams(pp) + "|" + errText(perr)
+		})
+	}
+	_ = rend(own, e)
+	own.RenderFNs[expr.And] = func(l, r string) (string, error) { return l + " && " + r, nil }
+	own.RenderFNs[expr.Equals] = func(l, r string) (string, error) { return l + " == " + r, nil }
+	delete(own.RenderFNs, expr.Not)
+	afterD := rend(own, e)
+	var freshD string
+	canon(func() string {
+		cp := driver.Base{RenderFNs: map[expr.Operator]driver.RenderFN{}}
+		for op, fn := range own.RenderFNs {
+			cp.RenderFNs[op] = fn
+		}
+		freshD = rend(cp, cloneExpr(e))
+		return ""
+	})
+	if afterD != freshD {
+		return "editprint:STALE (driver edited) after=" + strconv.Quote(afterD) + " fresh-driver=" + strconv.Quote(freshD)
+	}
 	return "editprint:ok edited=" + strconv.FormatBool(edited) + " " + strconv.Quote(before) + " -> " + strconv.Quote(after)
 }
 
